@@ -23,6 +23,8 @@ Added after the seeding rounds (DESIGN.md 6.6-6.8):
  AM2Q / AQUA.tilt / TILT.repr / ECOMPASS / POSE-DIV / OLEQ.matrix  dcm2quat answers in one direction on every decision path; AQUA's tilt fix on both arms;
             Tilt's three representations agree; ecompass is a proper rotation in both frames; no pose-dependent divisor in the singularity-free class;
             one interpreted step of OLEQ multiplies by 1/2 (I + a0 W1 + a1 W2).
+Added after seeding rounds 5 and 6 and refactoring round 4 (DESIGN.md 6.10-6.12):
+ AM2Q.dcm / SCALE-GATE  am2DCM is a proper rotation independent of the sample magnitudes; tolerance tests on quantities carrying a free magnitude.
 """
 import ast
 import numpy as np
